@@ -12,6 +12,7 @@ R5 sign parsing (thorough)         : abstract evaluation of the Term constructor
 import ast
 
 from .. import cfg as cfgmod
+from ..inline import flatten
 from ..loader import AnalysisError, unparse, call_name
 from ..dataflow import AliasAnalysis, ALIAS, mutations_in, own_exprs, linform, target_names
 
@@ -53,7 +54,33 @@ def run(prog, check):
     check.note('renderer ignores the coefficient of opaque terms: %s' % blob_ignores)
     # ---- R1 ----------------------------------------------------------------------------------------
     n1 = 0
-    for f in prog.all_functions():
+    from ..cfg import atomic_facts
+
+    def nonblob_at(g_, node_, obj_, depth=0):
+        """reaching the node implies that `obj_` is not an opaque term: a branch outcome says so, or `obj_` is a local
+        every non-None definition of which was taken from an object for which it holds"""
+        for test, outcome in g_.conditions_at(node_):
+            for _, v, e in atomic_facts(test, outcome):
+                if isinstance(e, ast.Attribute) and e.attr == 'IsBlob' and unparse(e.value) == obj_ and v is False:
+                    return True
+                if isinstance(e, ast.Compare) and len(e.ops) == 1 and isinstance(e.left, ast.Attribute) and e.left.attr == 'IsBlob' and \
+                        unparse(e.left.value) == obj_ and isinstance(e.comparators[0], ast.Constant) and \
+                        isinstance(e.ops[0], (ast.Is, ast.Eq)) and (e.comparators[0].value is (not v)):
+                    return True
+        if depth > 2 or not obj_.isidentifier():
+            return False
+        defs = [d for d in g_.stmt_nodes() if d.kind == 'stmt' and isinstance(d.ast, ast.Assign) and
+                obj_ in target_names(d.ast.targets[0])]
+        nn = [d for d in defs if not (isinstance(d.ast.value, ast.Constant) and d.ast.value.value is None)]
+        if not nn or len(nn) != len(defs):
+            not_none = any(v is False and isinstance(e, ast.Compare) and len(e.ops) == 1 and isinstance(e.ops[0], ast.Is) and
+                           unparse(e.left) == obj_ and unparse(e.comparators[0]) == 'None'
+                           for test, outcome in g_.conditions_at(node_) for _, v, e in atomic_facts(test, outcome))
+            if not nn or not not_none:
+                return False
+        return all(isinstance(d.ast.value, ast.Name) and nonblob_at(g_, d, d.ast.value.id, depth + 1) for d in nn)
+    for f_raw in prog.all_functions():
+        f = flatten(prog, f_raw)
         stores = []
         for n in ast.walk(f.node):
             tg = None
@@ -81,16 +108,7 @@ def run(prog, check):
                          'any opaque leading expression')
                 continue
             node = g.node_of(n)
-            guarded = False
-            for t in g.nodes:
-                if t.kind != 'test' or not g.dominates(t, node):
-                    continue
-                pol = _nonblob_polarity(t.ast, obj)
-                if pol is None:
-                    continue
-                tgt = [b for b, l in g.succ[t.id] if l is (not pol)]
-                if node.id not in g.reach(tgt, avoid=_loop_headers(g, node), include_src=True) or not tgt:
-                    guarded = True
+            guarded = nonblob_at(g, node, obj)
             n1 += 1
             ok = guarded or not blob_ignores
             check.ob('C12.R1', '%s::coefficient-store(%s)' % (f.key, unparse(n)), ok, '%s:%d' % (f.module.rel, n.lineno),
@@ -164,38 +182,122 @@ def run(prog, check):
     check.ob('C12.R4', '%s::no-global-rewrite' % rhs.key, not reps, rhs.where,
              'the assembled text is not rewritten globally' if not reps else 'assembled text rewritten by %s' % [unparse(r) for r in reps],
              "a blob containing '+' or spaces inside a string")
-    gr = cfgmod.build(rhs)
-    okp = False
-    for t in gr.nodes:
-        if t.kind == 'test' and isinstance(t.ast, ast.Call) and call_name(t.ast) == 'startswith' and t.ast.args and \
-                isinstance(t.ast.args[0], ast.Constant) and t.ast.args[0].value == '+':
-            v = unparse(t.ast.func.value)
-            for b, lab in gr.succ[t.id]:
-                nb = gr.nodes[b]
-                if lab is True and nb.kind == 'stmt' and isinstance(nb.ast, ast.Assign) and unparse(nb.ast.targets[0]) == v and \
-                        unparse(nb.ast.value) == '%s[1:]' % v:
-                    okp = True
-    slices = [n for n in ast.walk(rhs.node) if isinstance(n, ast.Subscript) and isinstance(n.slice, ast.Slice)]
-    check.ob('C12.R4', '%s::one-leading-plus' % rhs.key, okp and len(slices) == 1, rhs.where,
-             "exactly one leading '+' is removed, under startswith('+')" if (okp and len(slices) == 1) else
-             'the leading-sign removal is not the guarded single-character prefix strip', "first term '-x' or a blob starting with '('")
-    okz = False
-    for n in ast.walk(rhs.node):
-        if isinstance(n, ast.If) and isinstance(n.test, ast.Compare) and isinstance(n.test.comparators[0], ast.Constant) and \
-                n.test.comparators[0].value == '' and isinstance(n.test.ops[0], ast.Eq):
-            for st in n.body:
-                if isinstance(st, ast.Assign) and isinstance(st.value, ast.Constant) and isinstance(st.value.value, str):
-                    try:
-                        okz = float(st.value.value) == 0.0
-                    except ValueError:
-                        okz = False
+    # the rendering is executed symbolically on every path:  J = join of str(t) for all t in TermList,
+    # V = J without one leading '+' (only under startswith('+')), result = zero literal if V is empty else V
+    rflat = flatten(prog, rhs)
+    gr = cfgmod.build(rflat)
+
+    def sym(e, env):
+        if isinstance(e, ast.Constant) and isinstance(e.value, str):
+            return ('const', e.value)
+        if isinstance(e, ast.Name):
+            return env.get(e.id, ('?', e.id))
+        if isinstance(e, (ast.ListComp, ast.GeneratorExp)) and len(e.generators) == 1:
+            gen = e.generators[0]
+            tv = target_names(gen.target)
+            if 'TermList' in unparse(gen.iter) and isinstance(gen.iter, ast.Attribute) and len(tv) == 1 and \
+                    isinstance(e.elt, ast.Call) and call_name(e.elt) == 'str' and len(e.elt.args) == 1 and unparse(e.elt.args[0]) == tv[0]:
+                return ('L', 'filtered') if gen.ifs else ('L',)
+            return ('?', unparse(e))
+        if isinstance(e, ast.Call) and isinstance(e.func, ast.Attribute) and e.func.attr == 'join' and len(e.args) == 1 and \
+                isinstance(e.func.value, ast.Constant) and e.func.value.value == '':
+            inner = sym(e.args[0], env)
+            if inner == ('L',):
+                return ('J',)
+            return ('?', unparse(e))
+        if isinstance(e, ast.Call) and call_name(e) == 'map' and len(e.args) == 2 and unparse(e.args[0]) == 'str' and \
+                isinstance(e.args[1], ast.Attribute) and e.args[1].attr == 'TermList':
+            return ('L',)
+        if isinstance(e, ast.Subscript) and isinstance(e.slice, ast.Slice) and e.slice.upper is None and e.slice.step is None and \
+                isinstance(e.slice.lower, ast.Constant) and e.slice.lower.value == 1:
+            return ('strip1', sym(e.value, env))
+        if isinstance(e, ast.IfExp):
+            return ('?', unparse(e))
+        return ('?', unparse(e))
+
+    def symtest(e, env):
+        """(kind, operand, polarity)"""
+        pol = True
+        while isinstance(e, ast.UnaryOp) and isinstance(e.op, ast.Not):
+            e, pol = e.operand, not pol
+        if isinstance(e, ast.Call) and call_name(e) == 'startswith' and len(e.args) == 1 and isinstance(e.args[0], ast.Constant) \
+                and e.args[0].value == '+' and isinstance(e.func, ast.Attribute):
+            return ('sw', sym(e.func.value, env), pol)
+        if isinstance(e, ast.Compare) and len(e.ops) == 1:
+            l_, r_, op = e.left, e.comparators[0], e.ops[0]
+            if isinstance(r_, ast.Constant) and r_.value == '' and isinstance(op, (ast.Eq, ast.NotEq)):
+                return ('empty', sym(l_, env), pol if isinstance(op, ast.Eq) else not pol)
+            if isinstance(l_, ast.Call) and call_name(l_) == 'len' and len(l_.args) == 1 and isinstance(r_, ast.Constant) and r_.value == 0:
+                if isinstance(op, ast.Eq):
+                    return ('empty', sym(l_.args[0], env), pol)
+                if isinstance(op, (ast.Gt, ast.NotEq)):
+                    return ('empty', sym(l_.args[0], env), not pol)
+            if isinstance(l_, ast.Subscript) and isinstance(l_.slice, ast.Constant) and l_.slice.value == 0 and \
+                    isinstance(r_, ast.Constant) and r_.value == '+' and isinstance(op, ast.Eq):
+                return ('sw?', sym(l_.value, env), pol)      # x[0] == '+': fails on the empty text
+        if isinstance(e, ast.Name):
+            return ('empty', sym(e, env), not pol)
+        return ('?', unparse(e), pol)
+    okp = okz = okall = True
+    whyp = whyz = ''
+    n_paths = 0
+    for path in gr.paths(gr.entry, gr.exit, cap=5000):
+        env, conds, ret = {}, [], None
+        for i, nid in enumerate(path):
+            nd = gr.nodes[nid]
+            if nd.kind == 'stmt' and isinstance(nd.ast, ast.Assign) and len(nd.ast.targets) == 1 and isinstance(nd.ast.targets[0], ast.Name):
+                env[nd.ast.targets[0].id] = sym(nd.ast.value, env)
+            elif nd.kind == 'test' and i + 1 < len(path):
+                labs = [lab for b_, lab in gr.succ[nid] if b_ == path[i + 1]]
+                if labs and labs[0] in (True, False):
+                    k, x, pol = symtest(nd.ast, env)
+                    conds.append((k, x, pol if labs[0] else not pol))
+            elif nd.kind == 'stmt' and isinstance(nd.ast, ast.Return):
+                ret = sym(nd.ast.value, env) if nd.ast.value is not None else ('?', 'None')
+        if ret is None:
+            continue
+        n_paths += 1
+        # infeasible combinations: the joined text starts with '+' and is empty
+        J = ('J',)
+        sw = [c for c in conds if c[0] == 'sw' and c[1] == J]
+        if any(c[0] == 'sw?' for c in conds):
+            okp, whyp = False, "the first character is indexed without knowing the text is non-empty"
+        V = J
+        if sw and sw[0][2]:
+            V = ('strip1', J)
+        empt = [c for c in conds if c[0] == 'empty' and c[1] in (V, J)]
+        if any(c[2] for c in sw) and any(c[2] for c in empt if c[1] == J):
+            continue        # starts with '+' and is empty: infeasible
+        uses_strip = any(x == ('strip1', J) for x in list(env.values()) + [ret])
+        if uses_strip and not (sw and sw[0][2]):
+            okp, whyp = False, "a character is removed without the startswith('+') test"
+        if sw and sw[0][2] and ret not in (('strip1', J),) and not (ret[0] == 'const'):
+            okp, whyp = False, "a leading '+' is kept"
+        if ('L', 'filtered') in env.values() or (ret[0] == '?' ):
+            okall = False
+        if empt and empt[-1][2]:
+            zero = ret[0] == 'const'
+            try:
+                zero = zero and float(ret[1]) == 0.0
+            except ValueError:
+                zero = False
+            if not zero:
+                okz, whyz = False, 'an empty sum renders as %r' % (ret[1],)
+        elif empt:
+            if ret != V:
+                okall = False
+        else:
+            okz, whyz = False, 'a path returns the text without testing it for emptiness'
+    if not n_paths:
+        okp = okz = okall = False
+    check.ob('C12.R4', '%s::one-leading-plus' % rhs.key, okp, rhs.where,
+             "exactly one leading '+' is removed, under startswith('+')" if okp else
+             'the leading-sign removal is not the guarded single-character prefix strip (%s)' % whyp, "first term '-x' or a blob starting with '('")
     check.ob('C12.R4', '%s::empty-sum-is-zero' % rhs.key, okz, rhs.where,
-             "an empty sum renders as a zero literal" if okz else 'an empty sum does not render as zero', 'x - x')
-    # the terms are rendered in order with str()
-    comp = [n for n in ast.walk(rhs.node) if isinstance(n, ast.ListComp) and 'TermList' in unparse(n.generators[0].iter)
-            and not n.generators[0].ifs]
-    check.ob('C12.R4', '%s::all-terms-rendered' % rhs.key, bool(comp), rhs.where,
-             'every term of TermList is rendered' if comp else 'not every term is rendered (filter or other source)', 'three terms')
+             "an empty sum renders as a zero literal" if okz else 'an empty sum does not render as zero (%s)' % whyz, 'x - x')
+    check.ob('C12.R4', '%s::all-terms-rendered' % rhs.key, okall, rhs.where,
+             'every term of TermList is rendered, in order, and the result is the joined text' if okall else
+             'not every term is rendered (filter or other source) or the result is not the joined text', 'three terms')
     # ---- R6: AddTerm stores / merges a private Term object, never the caller's ---------------------------
     at = E.methods.get('AddTerm')
     if at is None:
@@ -215,7 +317,7 @@ def run(prog, check):
     # ---- AddTerm: merge only textually equal terms (R1 companion) -----------------------------------
     check.floor('C12.R1', 3)
     check.floor('C12.R2', 5)
-    check.floor('C12.R3', 4)
+    check.floor('C12.R3', 3)
     check.floor('C12.R4', 4)
     check.floor('C12.R6', 1)
     if check.tier == 'thorough':
